@@ -53,6 +53,8 @@ StringDictionaryHHTFC::StringDictionaryHHTFC(IteratorDictString *it,
     this->bucketsize = 2;
   } else
     this->bucketsize = bucketsize;
+  // The rest of the constructor must see the corrected value too
+  bucketsize = this->bucketsize;
 
   // 1) Bulding the Front-Coding representation
   StringDictionaryPFC *dict = new StringDictionaryPFC(it, this->bucketsize);
